@@ -24,7 +24,54 @@ HF_CLASSES = ("safe", "half", "full", "deep", "edge1", "edge95", "half", "full",
 
 
 # --------------------------------------------------------------------------------------------------- generation
+def _gen_exactly_one(seed: int) -> dict:
+    """A position whose health factor is EXACTLY 1 at the end of a bar, built from numbers for which every product the
+    definition needs is an exact decimal (indices 1, amounts and prices with two decimals, thresholds in basis points, a debt
+    of 1000 units priced at the weighted collateral / 1000): 'liquidated if and only if below 1' has no tolerance there."""
+    rx = R.sub(seed, "exactly_one")
+    nb = rx.choice([4, 5, 6])
+    world, mw = A.base_world(rx, nb, ntok=3, all_enabled=True, index_style="flat", price_style=0.0)
+    c1, c2, d = mw["tokens"]
+    n = int(world["n"])
+    for col in ("liquidity_index", "variable_borrow_index"):
+        for t in mw["tokens"]:
+            mw[col][t] = ["1"] * n
+    from decimal import localcontext
+
+    # among the candidate numbers prefer a set for which an algebraically equal way of writing the health factor (total
+    # collateral x weighted threshold / debt) is NOT exact at 35 digits: the definition itself stays exact for all of them
+    for _try in range(600):
+        lt1, lt2 = rx.sample([8250, 8000, 7500, 7300, 6500, 8300], 2)
+        a1, a2 = Decimal(rx.randint(100, 3000)) / 100, Decimal(rx.randint(100, 90000)) / 100
+        p1, p2 = Decimal(rx.randint(5000, 300000)) / 100, Decimal(rx.randint(50, 5000)) / 100
+        S = a1 * p1 * Decimal(lt1) / 10000 + a2 * p2 * Decimal(lt2) / 10000
+        with localcontext() as ctx:
+            ctx.prec = 35
+            V = a1 * p1 + a2 * p2
+            if V * (S / V) / S != 1 or (S / V) * V != S:
+                break
+    mw["risk"][c1].update(lt=lt1, ltv=min(lt1 - 500, 7000))
+    mw["risk"][c2].update(lt=lt2, ltv=min(lt2 - 500, 7000))
+    D_ = Decimal(1000)
+    pd1 = S / D_  # the debt token's price from the shock bar on: health factor exactly 1
+    pd0 = (pd1 * Decimal("0.5")).quantize(Decimal("0.01")) or Decimal("0.01")
+    bs = rx.randint(1, nb - 1)
+    world["prices"][c1] = [format(p1, "f")] * n
+    world["prices"][c2] = [format(p2, "f")] * n
+    world["prices"][d] = [format(pd0, "f")] * bs + [format(pd1, "f")] * (n - bs)
+    world["assets"] = {c1: format(a1, "f"), c2: format(a2, "f"), d: "0"}
+    program = [
+        {"bar": 0, "phase": "on_bar", "op": "aave.supply", "m": "aave0", "a": {"token": c1, "amount": format(a1, "f"), "collateral": True}},
+        {"bar": 0, "phase": "on_bar", "op": "aave.supply", "m": "aave0", "a": {"token": c2, "amount": format(a2, "f"), "collateral": True}},
+        {"bar": 0, "phase": "on_bar", "op": "aave.borrow", "m": "aave0", "a": {"token": d, "amount": "1000"}},
+    ]
+    faults = [{"kind": "health_factor_exactly_1", "bar": bs}]
+    return {"property": ID, "seed": seed, "world": world, "program": program, "faults": faults, "opts": {"exactly_one": bs}}
+
+
 def generate(seed: int, tier: str = "quick") -> dict:
+    if R.sub(seed, "exactly_one_p").random() < 0.05:
+        return _gen_exactly_one(seed)
     rw, rp, rf = R.sub(seed, "world"), R.sub(seed, "program"), R.sub(seed, "faults")
     nb = rw.choice([5, 6, 8, 12] if tier == "quick" else [6, 8, 12, 20])
     world, mw = A.base_world(rw, nb, ntok=rw.choice([2, 3, 3, 4]), all_enabled=True, min_gap=0.05,
@@ -223,6 +270,10 @@ class LiquidationOracle(Oracle):
                 return bad("update:not_liquidated_below_1")
         if acts and (hf0 is None or hf0 >= 1 + BAND):
             return bad("update:liquidated_at_or_above_1")
+        if hf0 == 1 and sim.scenario.get("opts", {}).get("exactly_one") is not None:
+            sim.count("probe:health_factor_exactly_1")
+            if acts:  # every product in the definition is an exact decimal in this world: no rounding to hide behind
+                return bad("update:liquidated_at_exactly_1")
         if has_d:
             sim.count(f"probe:hf_class_before_update:{cls0}")
         visited = []
